@@ -584,6 +584,24 @@ class Sem:
                 return None
             if k in IDENT_ARG and len(e.args) > IDENT_ARG[k]:
                 return self.aval(e.args[IDENT_ARG[k]], env, depth + 1)
+            # a workspace function whose result is a constant once its constant arguments are known (a classifier such as
+            # `PauseRule::of(&msg)` for a known message variant): evaluate its return value under the specialised paths
+            b = self.prog.bodies.get(k)
+            if b is not None and b.is_fn() and depth < 6 and len(e.args) == b.arg_count:
+                penv = {}
+                for i, a in enumerate(e.args, 1):
+                    v = self.aval(a, env, depth + 1)
+                    if v is not None:
+                        penv[E("param", (), (b.path, i, b.name_of(i), b.local_tys[i]))] = v
+                if penv:
+                    memo = self.__dict__.setdefault("_aval_call_memo", {})
+                    mk = (b.path, tuple(sorted((repr(x), repr(y)) for x, y in penv.items())))
+                    if mk not in memo:
+                        memo[mk] = None
+                        removed = frozenset(self.feasible_removed(self.w.be(b), penv))
+                        r = self.w.ret_expr(b, removed)
+                        memo[mk] = self.aval(r, penv, depth + 1)
+                    return memo[mk]
         return None
 
     def arg_specialisation(self, body, args):
